@@ -20,6 +20,7 @@ import (
 	"sort"
 	"strings"
 	"sync"
+	"sync/atomic"
 	"time"
 
 	"verifharness/core"
@@ -293,30 +294,44 @@ func RunC13Flips(ctx *core.Ctx) {
 	if par < 1 {
 		par = 1
 	}
-	sem := make(chan struct{}, par)
-	var wg sync.WaitGroup
-	results := make([]c13JobResult, len(jobs))
-	for i := range jobs {
-		j := jobs[i]
-		j.Tier, j.Driver, j.Threads = ctx.Tier, ctx.DriverPath, 3
-		if ctx.Widen {
-			j.Tier = "thorough" // a proof obligation broke: widened failing-input search
+	// one pass over the jobs at the given tier; tells whether a worker reported an L1 failure other than
+	// the known zero-CRC finding
+	pass := func(tier string) ([]c13JobResult, bool) {
+		sem := make(chan struct{}, par)
+		var wg sync.WaitGroup
+		var found atomic.Bool
+		results := make([]c13JobResult, len(jobs))
+		for i := range jobs {
+			j := jobs[i]
+			j.Tier, j.Driver, j.Threads = tier, ctx.DriverPath, 3
+			res := &results[i]
+			wg.Add(1)
+			sem <- struct{}{}
+			go func() {
+				defer wg.Done()
+				defer func() { <-sem }()
+				out, stderr, err := c13RunWorker(ctx, exe, j)
+				if err != nil {
+					found.Store(true)
+					c13WorkerCrashed(ctx, res, exe, j, stderr, err)
+					return
+				}
+				for _, f := range out.Failures {
+					if f.Layer == "L1" && !strings.HasPrefix(f.Key, "crc-zero-omitted") {
+						found.Store(true)
+					}
+				}
+				res.merge(j, out)
+			}()
 		}
-		res := &results[i]
-		wg.Add(1)
-		sem <- struct{}{}
-		go func() {
-			defer wg.Done()
-			defer func() { <-sem }()
-			out, stderr, err := c13RunWorker(ctx, exe, j)
-			if err != nil {
-				c13WorkerCrashed(ctx, res, exe, j, stderr, err)
-				return
-			}
-			res.merge(j, out)
-		}()
+		wg.Wait()
+		return results, found.Load()
 	}
-	wg.Wait()
+	results, found := pass(ctx.Tier)
+	if ctx.Widen && !found && ctx.Tier != "thorough" {
+		// a proof obligation broke and the tier's own enumeration shows no failing input: widened search
+		results, _ = pass("thorough")
+	}
 	// results are applied in job order so that a run is a function of the seed alone
 	for i := range results {
 		for _, f := range results[i].apply {
@@ -367,7 +382,11 @@ func c13ReplayJob(path string) (c13Job, bool) {
 
 func c13RunWorker(ctx *core.Ctx, exe string, j c13Job) (*c13Out, string, error) {
 	arg, _ := json.Marshal(&j)
-	to := time.Duration(ctx.Scale(150, 900)) * time.Second
+	// generous: the box may be oversubscribed many times over; a real hang costs this once per job
+	to := 400 * time.Second
+	if j.Tier == "thorough" {
+		to = 1200 * time.Second
+	}
 	cctx, cancel := context.WithTimeout(context.Background(), to)
 	defer cancel()
 	cmd := exec.CommandContext(cctx, exe, "-worker", "c13flips", string(arg))
